@@ -3,7 +3,7 @@ fresh pySDC description / controller inside the worker."""
 
 import numpy as np
 
-PROBLEMS = ['dahlquist', 'dahlquist_imex', 'heat', 'heatf', 'adv', 'dense', 'denseimex', 'dense2']
+PROBLEMS = ['dahlquist', 'dahlquist_imex', 'heat', 'heatf', 'adv', 'dense', 'denseimex', 'dense2', 'dense_x', 'dahlquist_x']
 IMPLICIT_NAMES = ['IE', 'LU', 'LU2', 'MIN', 'MIN-SR-S', 'MIN-SR-NS', 'IEpar', 'TRAP', 'Qpar', 'GS', 'PIC', 'MIN-SR-FLEX', 'LDU', 'TRAPAR', 'DNODES', 'Jumper']
 EXPLICIT_NAMES = ['EE', 'PIC', 'FE']
 
@@ -63,6 +63,10 @@ def sweeper_for(case):
     from pySDC.implementations.sweeper_classes.multi_implicit import multi_implicit
 
     p = case['prob']
+    if p in ('dense_x', 'dahlquist_x'):
+        from pySDC.implementations.sweeper_classes.explicit import explicit
+
+        return explicit
     if p in ('dahlquist', 'heat', 'adv', 'dense'):
         return generic_implicit
     if p in ('dahlquist_imex', 'heatf', 'denseimex'):
@@ -77,7 +81,7 @@ def problem_for(case):
 
     rng = np.random.default_rng(case['pseed'])
     p, n, nlev = case['prob'], case['n'], case['nlev']
-    if p == 'dahlquist':
+    if p in ('dahlquist', 'dahlquist_x'):
         from pySDC.implementations.problem_classes.TestEquation_0D import testequation0d
 
         lam = -10 ** rng.uniform(-1, 1.3, n) + 1j * rng.uniform(-5, 5, n)
@@ -106,7 +110,7 @@ def problem_for(case):
     A = rand_matrix(rng, n, 'stable')
     B = rand_matrix(rng, n, 'any', scale=0.5)
     forcing = dict(c0=rng.standard_normal(n), c1=rng.standard_normal(n), w=float(rng.uniform(0.5, 3)))
-    if p == 'dense':
+    if p in ('dense', 'dense_x'):
         return hp.DenseLinear, dict(A=A, **forcing)
     if p == 'denseimex':
         return hp.DenseIMEX, dict(A=A, B=B, **forcing)
@@ -123,6 +127,8 @@ def description_for(case, extra_cc=None):
     name = sw.__name__
     if name == 'generic_implicit':
         swp['QI'] = case['QI']
+    elif name == 'explicit':
+        swp['QE'] = case['QE']
     elif name == 'imex_1st_order':
         swp['QI'] = case['QI']
         swp['QE'] = case['QE']
